@@ -35,6 +35,16 @@
 #include <sys/un.h>
 #include <unistd.h>
 
+// A hostile length with RECVMAXSZ 0 makes the library ask for petabytes; the
+// allocation must fail (NNG_ENOMEM, connection closed), not abort the
+// sanitizer run.  ASAN_OPTIONS from the driver already says so; TSan's do not.
+const char *__tsan_default_options(void);
+const char *
+__tsan_default_options(void)
+{
+	return "allocator_may_return_null=1";
+}
+
 // ---------------------------------------------------------------- tables
 enum { T_SOCKFD = 0, T_TCP, T_IPC, T_WS, T_UDP, T_N };
 static const char *tnames[T_N] = { "sockfd", "tcp", "ipc", "ws", "udp" };
@@ -169,6 +179,23 @@ static struct {
 } logring[LOGRING];
 static _Atomic unsigned long logpos;
 static _Atomic long log_udp_inactive;    // NNG-UDP-INACTIVE events
+#define INACT_RING 256
+static struct {
+	int      port; // the peer that was given up for silence
+	uint64_t t_ns;
+} inact_ring[INACT_RING];
+
+// did a udp endpoint of this process give up the peer with that port for
+// inactivity since t?
+static bool
+udp_inactive_seen(int port, uint64_t since_ns)
+{
+	for (int i = 0; i < INACT_RING; i++) {
+		if (inact_ring[i].port == port && port != 0 && inact_ring[i].t_ns >= since_ns) return true;
+	}
+	return false;
+}
+
 static _Atomic long log_udp_disc[16];    // received DISC by reason
 static _Atomic long log_pair_busy, log_mismatch;
 
@@ -179,7 +206,17 @@ c11_logger(nng_log_level level, nng_log_facility fac, const char *id, const char
 	(void) fac;
 	if (id == NULL) return;
 	if (!strcmp(id, "NNG-UDP-INACTIVE")) {
-		atomic_fetch_add(&log_udp_inactive, 1);
+		// "Pipe peer 127.0.0.1:PORT timed out due to inactivity"
+		const char *c = strstr(msg, " timed out");
+		int         port = 0;
+		if (c != NULL) {
+			const char *q = c;
+			while (q > msg && q[-1] >= '0' && q[-1] <= '9') q--;
+			port = atoi(q);
+		}
+		unsigned long k = atomic_fetch_add(&log_udp_inactive, 1) % INACT_RING;
+		inact_ring[k].port = port;
+		inact_ring[k].t_ns = vf_now_ns();
 	} else if (!strcmp(id, "NNG-UDP-DISC")) {
 		const char *r = strstr(msg, "reason ");
 		int         n = r ? atoi(r + 7) : 15;
@@ -267,6 +304,9 @@ typedef struct {
 	atomic_int  add;
 	uint32_t    seen_seq; // highest control sequence number received
 	int         rem_base; // removals seen while the connection was being established
+	_Atomic int lport;    // local port of its (udp) pipe
+	uint64_t    t_conn;   // when it was connected
+	long        disc_base[16];
 } ctlsock;
 
 typedef struct {
@@ -579,9 +619,13 @@ static void
 c_pipe_cb(nng_pipe p, nng_pipe_ev ev, void *arg)
 {
 	ctlsock *c = arg;
-	(void) p;
-	if (ev == NNG_PIPE_EV_ADD_POST) atomic_fetch_add(&c->add, 1);
-	else if (ev == NNG_PIPE_EV_REM_POST) atomic_fetch_add(&c->rem, 1);
+	if (ev == NNG_PIPE_EV_ADD_POST) {
+		nng_sockaddr sa;
+		if (nng_pipe_self_addr(p, &sa) == 0 && sa.s_family == NNG_AF_INET) atomic_store(&c->lport, (int) ntohs(sa.s_in.sa_port));
+		atomic_fetch_add(&c->add, 1);
+	} else if (ev == NNG_PIPE_EV_REM_POST) {
+		atomic_fetch_add(&c->rem, 1);
+	}
 }
 
 static bool
@@ -881,7 +925,9 @@ exchange_(victim *v, int k, int *triesp)
 	// the connection works, and the reply leg is not demanded
 	bool     udp  = v->tran == T_UDP;
 	uint32_t seq0 = v->ctl_seq + 1;
-	while (vf_now_ns() < end) {
+	// the deadline is attempts as much as time: a slow machine gets its 12 tries
+	uint64_t cap = vf_now_ns() + 30000ULL * 1000000ULL;
+	while ((vf_now_ns() < end || tries < 12) && vf_now_ns() < cap) {
 		uint32_t seq = ++v->ctl_seq;
 		uint32_t lo  = udp ? seq0 : seq;
 		nng_msg *m;
@@ -1076,13 +1122,17 @@ spin_window(victim *v, const char *when)
 	}
 	long e0 = vf_ev_count(NNI_VE_AIO_EXPIRE), t0e = vf_ev_count(NNI_VE_TASK_ENQ), p0 = vf_ev_count(NNI_VE_POLL_BEGIN);
 	atomic_store(&spin_expired, 0);
+#if !defined(__SANITIZE_THREAD__)
 	vf_ev_hook(spin_ev);
+#endif
 	double   c0 = cpu_seconds();
 	uint64_t t0 = vf_now_ns();
 	vf_msleep(150);
 	double c1   = cpu_seconds();
 	double wall = (double) (vf_now_ns() - t0) / 1e9;
+#if !defined(__SANITIZE_THREAD__)
 	vf_ev_hook(NULL);
+#endif
 	vf_stat("spin_windows", 1);
 	if (c1 - c0 > 0.30 * 0.150 && c1 - c0 > 0.30 * wall) {
 		char    key[160], who[128] = "?";
@@ -1114,62 +1164,167 @@ diag(victim *v, const char *what)
 	log_dump(v->sess_t0 > 3000000000ULL ? v->sess_t0 - 3000000000ULL : 0);
 }
 
+// from now on this client is a bystander that must stay connected
+static void
+ctl_mark_established(ctlsock *c)
+{
+	c->rem_base = atomic_load(&c->rem);
+	c->t_conn   = vf_now_ns();
+	for (int i = 0; i < 16; i++) c->disc_base[i] = atomic_load(&log_udp_disc[i]);
+}
+
+// The process was not being run for a long stretch during this session (the
+// 1 ms ticker overslept by more than 0.7 s): a missed wall-clock deadline then
+// says nothing about the library.
+static bool
+starved(void)
+{
+	return atomic_load(&tick_max_over_ns) > 700000000ULL;
+}
+
+// udp only: why did a well-behaved client lose its connection?  The transport
+// logs it.  Keep-alive expiry (either side gave the other up for silence:
+// lost or late datagrams, which udp does not promise to deliver) is not the
+// victim dropping a bystander; a DISC with a protocol reason is.
+static int
+udp_loss_reason(victim *v, ctlsock *c, char *why, size_t sz)
+{
+	long bad = 0;
+	static const int badr[] = { 1, 3, 4, 5, 7, 8 }; // TYPE, REFUSED, MSGSIZE, NEGO, PROTO, NOBUF
+	for (int i = 0; i < 6; i++) bad += atomic_load(&log_udp_disc[badr[i]]) - c->disc_base[badr[i]];
+	bool ka = udp_inactive_seen(atomic_load(&c->lport), c->t_conn) || udp_inactive_seen(v->port, c->t_conn) ||
+	    atomic_load(&log_udp_disc[6]) - c->disc_base[6] > 0;
+	snprintf(why, sz, "inactivity expiry of this connection %s, DISC with a protocol reason received by a client: %ld", ka ? "logged" : "not logged", bad);
+	if (bad > 0) return 2;
+	return ka ? 0 : 1;
+}
+
 // (4) bystanders: the old control still works and was not disconnected; a
 // new client can connect and work.  attacker_present: a hostile connection is
 // still open (hold sessions).
 static void
 check_bystanders(victim *v, bool do_new, bool attacker_present)
 {
-	char          key[160];
-	const vproto *vp = v->vp;
-	int           o  = v->oldk;
+	char          key[160], why[200];
+	const vproto *vp  = v->vp;
+	int           o   = v->oldk;
+	bool          udp = v->tran == T_UDP;
 	if (v->ctl[o].open) {
-		if (atomic_load(&v->ctl[o].rem) != v->ctl[o].rem_base) {
-			snprintf(key, sizeof(key), "C11/bystander-dropped/%s/%s", tnames[v->tran], vp->name);
-			vf_violation(key, "the well-behaved control connection was disconnected (mutation %s)", v->cur_mut);
-			diag(v, "bystander-dropped");
+		ctlsock *c = &v->ctl[o];
+		if (atomic_load(&c->rem) != c->rem_base) {
+			int r = udp ? udp_loss_reason(v, c, why, sizeof(why)) : 2;
+			if (udp && r == 0) {
+				// keep-alive expiry: inconclusive, go on with a fresh client
+				vf_stat("udp_bystander_lost_to_keepalive_expiry", 1);
+				vf_class("inconclusive/udp-keepalive-expiry/%s", vp->name);
+			} else if (udp && starved()) {
+				vf_stat("starved_observations_discarded", 1);
+			} else {
+				snprintf(key, sizeof(key), "C11/bystander-dropped/%s/%s", tnames[v->tran], vp->name);
+				vf_violation(key, "the well-behaved control connection was disconnected (mutation %s)%s%s", v->cur_mut, udp ? "; " : "", udp ? why : "");
+				diag(v, "bystander-dropped");
+			}
 			ctl_close(v, o);
+			if (udp && !attacker_present) do_new = true;
 		} else if (!exchange(v, o)) {
-			snprintf(key, sizeof(key), "C11/control-old/%s/%s", tnames[v->tran], vp->name);
-			vf_violation(key, "control client connected before the session cannot complete an exchange within 6 s after mutation %s", v->cur_mut);
-			diag(v, "control-old");
-			ctl_close(v, o);
+			bool judged = false;
+			if (udp) {
+				// the datagrams of this connection do not get through: is it
+				// the connection (udp may lose it) or the listener?
+				int r = udp_loss_reason(v, c, why, sizeof(why));
+				if (r == 2) {
+					snprintf(key, sizeof(key), "C11/bystander-dropped/%s/%s", tnames[v->tran], vp->name);
+					vf_violation(key, "the well-behaved control connection was refused by the victim (mutation %s); %s", v->cur_mut, why);
+					diag(v, "bystander-refused");
+					judged = true;
+				}
+				ctl_close(v, o);
+				if (!judged && !(vp->single && attacker_present)) {
+					if (ctl_connect(v, o) && exchange(v, o)) {
+						vf_stat("udp_bystander_stalled_fresh_client_ok", 1);
+						vf_class("inconclusive/udp-connection-stalled/%s", vp->name);
+						ctl_mark_established(&v->ctl[o]);
+						judged = true;
+					} else if (starved()) {
+						vf_stat("starved_observations_discarded", 1);
+						ctl_close(v, o);
+						judged = true;
+					}
+				} else if (!judged) {
+					vf_stat("udp_bystander_stalled_not_retried", 1);
+					judged = true;
+				}
+				if (!judged) {
+					snprintf(key, sizeof(key), "C11/control-old/%s/%s", tnames[v->tran], vp->name);
+					vf_violation(key, "neither the control client connected before the session nor a fresh one can complete an exchange (12+ attempts, 6+ s each) after mutation %s; %s", v->cur_mut, why);
+					diag(v, "control-old");
+					ctl_close(v, o);
+					v->wedged = true;
+				}
+			} else if (starved()) {
+				vf_stat("starved_observations_discarded", 1);
+				ctl_close(v, o);
+			} else {
+				snprintf(key, sizeof(key), "C11/control-old/%s/%s", tnames[v->tran], vp->name);
+				vf_violation(key, "control client connected before the session cannot complete an exchange (12+ attempts in 6+ s) after mutation %s", v->cur_mut);
+				diag(v, "control-old");
+				ctl_close(v, o);
+			}
 		} else {
 			vf_stat("control_old_ok", 1);
 		}
 	}
 	if (!do_new) return;
-	if (vp->single && v->tran == T_UDP && v->ctl[o].open) return; // a closing nng udp client's DISC is not reliably sent: the slot stays taken for its keep-alive time
+	if (vp->single && udp && v->ctl[o].open) return; // a closing nng udp client's DISC is not reliably sent: the slot stays taken for its keep-alive time
 	if (vp->single) {
 		if (attacker_present) return; // the slot is legitimately taken
 		ctl_close(v, o);
 		settle(v, 5000);
 	}
-	int k = 1 - o;
+	int k = v->ctl[o].open ? 1 - o : o;
 	uint64_t tc0 = vf_now_ns();
 	bool     cok = ctl_connect(v, k);
 	vf_stat("us_ctl_connect", (long) ((vf_now_ns() - tc0) / 1000));
 	if (!cok) {
-		snprintf(key, sizeof(key), "C11/control-new/connect/%s/%s", tnames[v->tran], vp->name);
-		vf_violation(key, "a new well-behaved client cannot connect within 8 s after mutation %s (pipes started %d, removed %d, own clients %d)", v->cur_mut, atomic_load(&v->pre), atomic_load(&v->rem), live_ctl(v) - 1);
 		ctl_close(v, k);
+		if (starved()) {
+			vf_stat("starved_observations_discarded", 1);
+			return;
+		}
+		snprintf(key, sizeof(key), "C11/control-new/connect/%s/%s", tnames[v->tran], vp->name);
+		vf_violation(key, "a new well-behaved client cannot connect within 8 s after mutation %s (pipes started %d, removed %d, own clients %d)", v->cur_mut, atomic_load(&v->pre), atomic_load(&v->rem), live_ctl(v));
+		diag(v, "control-new/connect");
 		v->wedged = true;
 		return;
 	}
 	tc0 = vf_now_ns();
 	bool xok = exchange(v, k);
 	vf_stat("us_ctl_new_exchange", (long) ((vf_now_ns() - tc0) / 1000));
-	if (!xok) {
-		snprintf(key, sizeof(key), "C11/control-new/exchange/%s/%s", tnames[v->tran], vp->name);
-		vf_violation(key, "a new well-behaved client connected but cannot complete an exchange within 6 s after mutation %s", v->cur_mut);
+	if (!xok && udp && !starved()) {
+		// one more fresh connection before the listener is blamed: this one
+		// may have lost its first datagrams
 		ctl_close(v, k);
+		xok = ctl_connect(v, k) && exchange(v, k);
+		if (xok) vf_stat("udp_new_client_second_attempt_ok", 1);
+	}
+	if (!xok) {
+		ctl_close(v, k);
+		if (starved()) {
+			vf_stat("starved_observations_discarded", 1);
+			return;
+		}
+		snprintf(key, sizeof(key), "C11/control-new/exchange/%s/%s", tnames[v->tran], vp->name);
+		vf_violation(key, "a new well-behaved client connected but cannot complete an exchange (12+ attempts in 6+ s) after mutation %s", v->cur_mut);
+		diag(v, "control-new/exchange");
 		return;
 	}
 	vf_stat("control_new_ok", 1);
 	// the new client replaces the old one; from now on it must stay connected
-	v->ctl[k].rem_base = atomic_load(&v->ctl[k].rem);
-	ctl_close(v, o);
-	v->oldk = k;
+	ctl_mark_established(&v->ctl[k]);
+	if (k != o) {
+		ctl_close(v, o);
+		v->oldk = k;
+	}
 }
 
 // ---------------------------------------------------------------- session plans
@@ -1703,6 +1858,8 @@ session_tail(victim *v, sess_exp *se, plan *pl, int fd, bool hs_ok, int pre0, bo
 		vclosed = fd_wait_eof_pump(v, fd, 5000);
 		if (vclosed) {
 			vf_stat("oversize_closed", 1);
+		} else if (starved()) {
+			vf_stat("starved_observations_discarded", 1);
 		} else {
 			snprintf(key, sizeof(key), "C11/oversize-not-closed/%s/%s", tnames[v->tran], vp->name);
 			vf_violation(key, "recvmax=%zu: the connection is still open 5 s after a frame length beyond the limit (mutation %s, %zu bytes written)", v->recvmax, pl->mut, written);
@@ -2321,6 +2478,19 @@ udp_drain(int fd, int ms, uint32_t *idp, bool *cack)
 	}
 }
 
+// a counter of the victim's udp listener (rcv_toobig, rcv_nomatch, ...)
+static long
+udp_listener_stat(victim *v, const char *name)
+{
+	nng_stat       *root = NULL;
+	const nng_stat *ls, *st;
+	long            val = -1;
+	if (nng_stats_get(&root) != 0) return -1;
+	if ((ls = nng_stat_find_listener(root, v->l)) != NULL && (st = nng_stat_find(ls, name)) != NULL) val = (long) nng_stat_value(st);
+	nng_stats_free(root);
+	return val;
+}
+
 static void
 run_udp_session(victim *v, plan *pl, vf_rng *r, bool do_new, bool do_spin)
 {
@@ -2374,12 +2544,15 @@ run_udp_session(victim *v, plan *pl, vf_rng *r, bool do_new, bool do_spin)
 		}
 		if (id) vf_stat("ids_learnt", 1);
 	}
+	long toobig0   = udp_listener_stat(v, "rcv_toobig");
 	int first_data = 0;
 	int n          = render_udp(v, pl, se->serial, id, r, dg, &first_data);
 	// the CREQ went out already (or was cut): the decoder sees what was sent
 	if (sent_creq) dg[0].n = creq_len;
 	PHASE("learn_render_waitpipe");
-	decode_udp(v, se, dg, n, id, !slot_busy);
+	// (a control client may have been lost to keep-alive expiry unnoticed: on udp
+	// no claim that a busy single-peer victim refuses this peer)
+	decode_udp(v, se, dg, n, id, true);
 	size_t written = 0;
 	for (int i = first_data; i < n; i++) {
 		(void) send(fd, dg[i].p, dg[i].n, 0);
@@ -2395,17 +2568,40 @@ run_udp_session(victim *v, plan *pl, vf_rng *r, bool do_new, bool do_spin)
 	int vclosed = -1;
 	if (se->closeexp == CE_HARD) {
 		vf_stat("oversize_probes", 1);
-		uint64_t end = vf_now_ns() + 5000ULL * 1000000ULL;
-		while (!disc_seen && vf_now_ns() < end) {
-			disc_seen = udp_drain(fd, 3, NULL, NULL);
-			pump(v);
+		// The DISC may get lost, and so may the offending datagram: the
+		// verdict is the victim's own counter of rejected datagrams, and the
+		// probe is repeated before silence is taken for "not closed".
+		bool rejected = false;
+		for (int round = 0; round < 3 && !disc_seen && !rejected; round++) {
+			uint64_t end = vf_now_ns() + (round == 0 ? 3000ULL : 1500ULL) * 1000000ULL;
+			while (!disc_seen && vf_now_ns() < end) {
+				disc_seen = udp_drain(fd, 3, NULL, NULL);
+				pump(v);
+			}
+			if (disc_seen) break;
+			if (udp_listener_stat(v, "rcv_toobig") > toobig0) {
+				rejected = true;
+				vf_stat("udp_oversize_rejected_disc_not_seen", 1);
+				break;
+			}
+			for (int i = first_data; i < n; i++) {
+				// once more, only the offending datagram(s)
+				const uint8_t *d = dg[i].p;
+				if (dg[i].n >= 8 && d[0] == 1 && d[1] == 0) {
+					size_t p0 = (size_t) (d[4] | (d[5] << 8));
+					if (p0 > dg[i].n - 8 || p0 > v->efflimit) (void) send(fd, dg[i].p, dg[i].n, 0);
+				}
+			}
+			vf_stat("udp_oversize_probe_repeated", 1);
 		}
-		vclosed = disc_seen;
-		if (disc_seen) {
+		vclosed = disc_seen || rejected;
+		if (vclosed) {
 			vf_stat("oversize_closed", 1);
+		} else if (starved()) {
+			vf_stat("starved_observations_discarded", 1);
 		} else {
 			snprintf(key, sizeof(key), "C11/oversize-not-closed/%s/%s", tnames[v->tran], vp->name);
-			vf_violation(key, "limit %zu: no DISC within 5 s after a DATA datagram whose length field is beyond the limit or the datagram (mutation %s)", v->efflimit, pl->mut);
+			vf_violation(key, "limit %zu: no DISC and no rejected datagram counted by the listener after three rounds of a DATA datagram whose length field is beyond the limit or the datagram (mutation %s)", v->efflimit, pl->mut);
 		}
 	} else if (se->closeexp == CE_SOFT) {
 		uint64_t end = vf_now_ns() + 300ULL * 1000000ULL;
@@ -2643,7 +2839,7 @@ open_with_control(victim *v, const vproto *vp, int tran, size_t recvmax, int ttl
 	if (with_ctl) {
 		if (!ctl_connect(v, 0)) vf_harness_fail("control client cannot connect to a fresh %s/%s victim", tnames[tran], vp->name);
 		if (!exchange(v, 0)) vf_harness_fail("control exchange fails on a fresh %s/%s victim", tnames[tran], vp->name);
-		v->ctl[0].rem_base = atomic_load(&v->ctl[0].rem);
+		ctl_mark_established(&v->ctl[0]);
 	}
 }
 
